@@ -396,6 +396,13 @@ class _Resolver:
                         addressTypes=None, transportSemantics="TCP"):
         resolutionReceiver.resolutionBegan(None)
         ip = self.net.names.get(hostName, hostName)
+        # (getaddrinfo: a negative service number is an error - no address at all; a larger one is cut to 16 bits.
+        #  Observed with Twisted's HostnameEndpoint on the real reactor: -1 -> DNSLookupError, 65536 and 2**40 -> port 0)
+        if isinstance(portNumber, int) and not isinstance(portNumber, bool):
+            if portNumber < 0:
+                ip = None
+            else:
+                portNumber &= 0xFFFF
         if ip is not None:
             resolutionReceiver.addressResolved(address.IPv4Address("TCP", ip, portNumber))
         resolutionReceiver.resolutionComplete()
@@ -473,6 +480,19 @@ class SimReactor(Clock):
         self.netlog.append(("dial", host, port, self.seconds()))
         factory.doStart()
         factory.startedConnecting(c)
+        if isinstance(port, int) and not isinstance(port, bool) and not (0 <= port <= 65535):
+            # as on the real reactor (tcp.Client: resolveAddress -> doConnect in a timed call): socket.connect_ex() raises
+            # OverflowError, the reactor logs it, and the attempt stays pending until its timeout fails it
+            def bad_port():
+                raise OverflowError("connect_ex(): port must be 0-65535.")
+            self.callLater(0, bad_port)
+            if timeout is not None:
+                def timed_out_():
+                    c.timeoutID = None
+                    if c.state == "connecting":
+                        c.connectionFailed(failure.Failure(error.TimeoutError()))
+                c.timeoutID = self.callLater(timeout, timed_out_)
+            return c
         if c.state == "connecting":
             self.pending.append(c)
             if timeout is not None:
